@@ -67,6 +67,8 @@ cfg_64!(
 
         let mut c: u8;
         let mut idx = 0;
+        #[cfg(num_bigint_verif)]
+        crate::verif_probe::hit(crate::verif_probe::Probe::SUB_ASM_BLOCK);
 
         asm!(
             // Clear carry flag
@@ -165,12 +167,24 @@ pub(super) fn sub2(a: &mut [BigDigit], b: &[BigDigit]) {
     let (b, done) = (false, 0);
 
     let mut borrow = b as u8;
+    #[cfg(num_bigint_verif)]
+    if b && done < len {
+        crate::verif_probe::hit(crate::verif_probe::Probe::SUB_TAIL_WITH_BORROW);
+    }
+    #[cfg(num_bigint_verif)]
+    if b {
+        crate::verif_probe::hit(crate::verif_probe::Probe::SUB_ASM_BORROW_OUT);
+    }
 
     for (a, b) in a_lo[done..].iter_mut().zip(b_lo[done..].iter()) {
         borrow = sbb(borrow, *a, *b, a);
     }
 
     if borrow != 0 {
+        #[cfg(num_bigint_verif)]
+        if !a_hi.is_empty() {
+            crate::verif_probe::hit(crate::verif_probe::Probe::SUB_PROPAGATE_HI);
+        }
         for a in a_hi {
             borrow = sbb(borrow, *a, 0, a);
             if borrow == 0 {
@@ -243,12 +257,18 @@ impl Sub<BigUint> for &BigUint {
     fn sub(self, mut other: BigUint) -> BigUint {
         let other_len = other.data.len();
         if other_len < self.data.len() {
+            #[cfg(num_bigint_verif)]
+            crate::verif_probe::hit(crate::verif_probe::Probe::SUB_REV_LONGER);
             let lo_borrow = __sub2rev(&self.data[..other_len], &mut other.data);
             other.data.extend_from_slice(&self.data[other_len..]);
             if lo_borrow != 0 {
+                #[cfg(num_bigint_verif)]
+                crate::verif_probe::hit(crate::verif_probe::Probe::SUB_REV_LONGER_BORROW);
                 sub2(&mut other.data[other_len..], &[1])
             }
         } else {
+            #[cfg(num_bigint_verif)]
+            crate::verif_probe::hit(crate::verif_probe::Probe::SUB_REV_SAME);
             sub2rev(&self.data[..], &mut other.data[..]);
         }
         other.normalized()
